@@ -25,7 +25,7 @@ def plan(tier, seed):
             ("composite-0", 8, [("E5", {"with_typename": False, "kind": "request"}), "E1", "E3", ("E3", {"deep": True}), "E8", ("E6", {"both": True})]),
             ("composite-1", 10, [("E5", {"with_typename": False, "kind": "notification", "dollar": True}), "E2", "E4", "E8", ("E6", {"both": True}), ("E6", {"both": True})]),
             ("composite-3", 6, [("E3", {"own": 0}), ("E5", {"kind": "notification", "with_typename": True, "params_last_new": True}), ("E3", {"own": 0}), ("E5", {"kind": "request", "with_typename": True, "params_last_new": True}), "E9", "E10"]),
-            ("composite-4", 6, [("E8", {"mode": "optionality"}), ("E8", {"mode": "nullable"}), ("E8", {"mode": "literal"}), ("E8", {"mode": "optionality"}), "E11", "E11"]),
+            ("composite-4", 8, [("E8", {"mode": "optionality"}), ("E8", {"mode": "nullable"}), ("E8", {"mode": "literal"}), ("E8", {"mode": "denull"}), ("E8", {"mode": "denull"}), "E11", "E11", "E13"]),
             ("composite-5", 2, ["E12", ("E5", {"kind": "request", "with_typename": True, "enum_result": True})]),
             ("composite-2", 10, ["E1", "E2", "E2", ("E5", {"with_typename": True, "kind": "request"}), "E7", "E6", ("E5", {"with_typename": False, "kind": "request", "dollar": True}), ("E3", {"deep": True})]),
         ]
@@ -38,7 +38,7 @@ def plan(tier, seed):
                 forced.append(("E5", {"with_typename": False, "kind": "notification"}))
             if k % 4 == 2:
                 forced.append(("E5", {"with_typename": True, "kind": "request"}))
-            forced.append(["E1", "E2", "E3", "E4", "E6", "E7", "E8", ("E3", {"deep": True}), ("E5", {"with_typename": False, "dollar": True}), ("E6", {"both": True}), "E9", "E10", ("E3", {"own": 0}), "E11", ("E8", {"mode": "optionality"}), ("E8", {"mode": "nullable"}), ("E5", {"kind": "request", "enum_result": True})][k % 17])
+            forced.append(["E1", "E2", "E3", "E4", "E6", "E7", "E8", ("E3", {"deep": True}), ("E5", {"with_typename": False, "dollar": True}), ("E6", {"both": True}), "E9", "E10", ("E3", {"own": 0}), "E11", ("E8", {"mode": "optionality"}), ("E8", {"mode": "nullable"}), ("E5", {"kind": "request", "enum_result": True}), "E13", ("E8", {"mode": "denull"})][k % 19])
             if k % 12 == 11:
                 forced = ["E12"]
             if k % 5 == 3:
